@@ -9,6 +9,7 @@ import (
 	"io"
 	"os"
 	"path/filepath"
+	"runtime"
 	"strconv"
 	"strings"
 	"sync"
@@ -41,6 +42,9 @@ type recCache struct {
 	// loseEvery > 0: every n-th Get of a present key reports a miss (cache loss: forces
 	// the re-fetch + re-verify path)
 	loseEvery int64
+	// yield: Add yields the processor before calling the inner cache (a cache may always be
+	// slow or block; this only delays the call). Used by the concurrent-read stage.
+	yield bool
 }
 
 func newRecCache(inner cache.BlobCache, keep bool) *recCache {
@@ -82,6 +86,9 @@ func (w *recWriter) Abort() error {
 
 func (c *recCache) Add(key string, opts ...cache.Option) (cache.Writer, error) {
 	c.adds.Add(1)
+	if c.yield {
+		runtime.Gosched()
+	}
 	w, err := c.inner.Add(key, opts...)
 	if err != nil {
 		return nil, err
